@@ -12,7 +12,7 @@ LEVEL = "model_checking"
 TECHNIQUE = "explicit enumeration of all attach / re-attach histories (bounded length) over simulated targets of every peripheral device type and qualifier on both transports, judged by a device-type -> command-set reference table and a differential comparison with a fresh facade"
 RULE = ("depth 1: all 32 peripheral device types x 8 qualifiers x {SG_IO, iSCSI} x {SCSI(dev), facade(dev) re-attach}; all 32 types x every single bit of INQUIRY bytes 1-7 and 56 set (the selection may depend on the device type only); histories: all sequences of "
         "length <= 3 over device types {00,01,03,04,05,07,08,0E,1F} (9^1+9^2+9^3 per transport, mixing transports at the second step), "
-        "first step by construction, later steps by calling the same facade. states = distinct (facade device, per-device command set) "
+        "first step by construction, later steps by calling the same facade; every history of length 2-3 also with one earlier attach refused by its device (CHECK CONDITION / BUSY to the INQUIRY): it fails and the following attaches are judged as usual. states = distinct (facade device, per-device command set) "
         "configurations; transitions = attach events. Non-trivial = history has a re-attach or a type other than 00.")
 ASSUMPTIONS = [
     "reference table (SPC-4 table 'peripheral device type' + which command standard governs it): 00/04/07 -> SBC, 01 -> SSC, 05 -> MMC, 08 -> SMC; processor (03) and every other code: only the primary commands are required (INQUIRY, TEST UNIT READY, REPORT LUNS with their T10 values)",
@@ -72,14 +72,32 @@ def run_case(case, obs=None):
     steps = case[1]             # list of (transport, dtype, qualifier)
     out = []
     rigs = []
+    refused = []
     s = None
     try:
         for i, step in enumerate(steps):
             tr, dtype, q = step[:3]
             patch = {int(k): v for k, v in (step[3] if len(step) > 3 else {}).items()}
             rig = harness.Rig(tr, dtype, q, inq_patch=patch)
-            rigs.append(rig)
             where = "step %d of %r" % (i, steps)
+            if len(step) > 4 and step[4]:
+                # an attach whose INQUIRY the device refuses (CHECK CONDITION over SG_IO / BUSY over iSCSI): it fails - and must not
+                # spoil the attaches that follow
+                from vf.sim.target import fixed_sense
+                rig.target.script.append((0x02, fixed_sense(2, 0x04, 0x01)) if step[4] == 1 else (0x08, None))
+                try:
+                    if s is None:
+                        SCSI(rig.dev)
+                    else:
+                        s(rig.dev)
+                    out.append(("refused_attach_succeeds", "%s: the device refused INQUIRY, the attach returned normally" % where))
+                except Exception:   # noqa: BLE001
+                    pass
+                refused.append(rig)
+                if obs is not None:
+                    obs.append(("refused", set_id(s.device) if s is not None and s.device is not None else None))
+                continue
+            rigs.append(rig)
             n0 = len(rig.target.log)
             prev = [(r.dev, set_id(r.dev), getattr(r.dev, "devicetype", None)) for r in rigs[:-1]]
             if s is None:
@@ -104,7 +122,7 @@ def run_case(case, obs=None):
             if obs is not None:
                 obs.append((tuple(set_id(r.dev) for r in rigs), set_id(s.device)))
     finally:
-        for r in rigs:
+        for r in rigs + refused:
             r.close()
     return out
 
@@ -157,4 +175,8 @@ def run_partition(part, tier, seed):
             do([(tr, t, 0) for t in types])
             if n >= 2:
                 do([(tr if i % 2 == 0 else other, t, (i * 3) % 8) for i, t in enumerate(types)])
+                # one of the earlier attaches is refused by its device (CHECK CONDITION, BUSY)
+                for pos in range(n - 1):
+                    for how in (1, 2):
+                        do([(tr, t, 0, {}, how if i == pos else 0) for i, t in enumerate(types)])
     return acc
